@@ -17,7 +17,7 @@ func genC01(t *rapid.T, bigBits bool) SeqCase {
 	}
 	c.Keys = genKeys(t, c.Cfg, 2, 10)
 	m := genMix(t, c01Kinds, c01MaxW)
-	c.Ops = genOps(t, m, len(c.Keys), c.Cfg, 1, 60, true)
+	c.Ops = genOps(t, m, len(c.Keys), c.Cfg, 2, 60, true)
 	return c
 }
 
@@ -79,6 +79,9 @@ func seqClasses(c SeqCase, st SeqStats) []string {
 	if st.ReadAfterGC {
 		cl = append(cl, "read-after-gc")
 	}
+	for _, e := range st.GCErrors {
+		cl = append(cl, "gc-cycle-returned-error: "+e)
+	}
 	return cl
 }
 
@@ -88,6 +91,7 @@ func TestC01(t *testing.T) {
 	if replaySeq(t, ev, seqOpts{}) {
 		return
 	}
+	regressSeq(t, ev, seqOpts{})
 	prop := func(bigBits bool) func(rt *rapid.T) {
 		return func(rt *rapid.T) {
 			if pastDeadline() {
@@ -102,7 +106,7 @@ func TestC01(t *testing.T) {
 			}
 		}
 	}
-	setRapidChecks(budget(3000, 20000))
+	setRapidChecks(budget(60000, 150000))
 	rapid.Check(t, prop(false))
 	if thorough() && envShard < 4 {
 		setRapidChecks(10)
@@ -128,4 +132,19 @@ func replaySeq(t *testing.T, ev *Evidence, o seqOpts) bool {
 		}
 	}
 	return true
+}
+
+// regressSeq runs the curated regression cases of the property first.
+func regressSeq(t *testing.T, ev *Evidence, o seqOpts) {
+	for _, f := range regressFiles(ev.Property) {
+		var c SeqCase
+		readReplay(f, &c)
+		for i := 0; i < 3; i++ {
+			st, v := runSeq(c, o)
+			ev.Record(c, true, append(seqClasses(c, st), "regression-case")...)
+			if v != nil && ev.Report(v, c) {
+				t.Fatalf("regression case %s: %v", f, v)
+			}
+		}
+	}
 }
